@@ -111,6 +111,7 @@ public:
       Memory::copy(buffer, data, size);
       bufferStart = buffer;
       bufferEnd = buffer + requiredCapacity;
+      *bufferEnd = 0;
     }
     else
     {
@@ -121,6 +122,7 @@ public:
       delete [] (char*)buffer;
       bufferStart = buffer = newBuffer;
       bufferEnd = newBuffer+ requiredCapacity;
+      *bufferEnd = 0;
     }
   }
 
